@@ -17,19 +17,22 @@ import (
 const NumRegisters = 8
 
 type Environment struct {
-	store     map[string]Object
-	outer     *Environment
-	stack     *Environment // Different from outer when we attach to top level lambdas. see logic in NewFunctionEnvironment.
-	depth     int
-	cacheKey  string
-	ids       *trie.Trie
-	numSet    int64
-	epoch     int64 // incremented when a top level function or constant is replaced or deleted (invalidates cached results).
-	getMiss   int64
-	cantCache bool
-	function  *Function
-	registers [NumRegisters]int64
-	numReg    int
+	store    map[string]Object
+	outer    *Environment
+	stack    *Environment // Different from outer when we attach to top level lambdas. see logic in NewFunctionEnvironment.
+	depth    int
+	cacheKey string
+	ids      *trie.Trie
+	numSet   int64
+	epoch    int64 // incremented when a top level function or constant is replaced or deleted (invalidates cached results).
+	// Root only: names a function assigned as brand new locals because no enclosing scope had them (see noteCreated).
+	assumedAbsent map[string]struct{}
+	closures      bool // a function literal was evaluated in this environment (it can be the outer scope of a later call).
+	getMiss       int64
+	cantCache     bool
+	function      *Function
+	registers     [NumRegisters]int64
+	numReg        int
 }
 
 // Truly empty store suitable for macros storage.
@@ -396,7 +399,37 @@ func (e *Environment) noteReplaced(name string, old Object) {
 	}
 }
 
+// NoteClosure records that a function was created in this environment.
+func (e *Environment) NoteClosure() {
+	e.closures = true
+}
+
+func (e *Environment) root() *Environment {
+	for e.outer != nil {
+		e = e.outer
+	}
+	return e
+}
+
+// noteCreated is called when name is about to be created in e. A memoized call that made name a local of its own
+// did so because no enclosing scope had it: once one has, the same call assigns that variable instead,
+// the results memoized so far are void.
+func (e *Environment) noteCreated(name string) {
+	if e.depth != 0 && !e.closures {
+		return
+	}
+	if _, exists := e.store[name]; exists {
+		return
+	}
+	r := e.root()
+	if _, relied := r.assumedAbsent[name]; relied {
+		r.epoch++
+		clear(r.assumedAbsent)
+	}
+}
+
 func (e *Environment) create(name string, val Object) Object {
+	e.noteCreated(name)
 	if e.depth == 0 {
 		e.numSet++
 		record(e.ids, name, val.Type())
@@ -459,6 +492,13 @@ func (e *Environment) SetNoChecks(name string, val Object, create bool) Object {
 		return val
 	}
 	log.Debugf("SetNoChecks(%s) brand new to %d and above", name, e.depth)
+	if e.depth != 0 {
+		r := e.root()
+		if r.assumedAbsent == nil {
+			r.assumedAbsent = make(map[string]struct{})
+		}
+		r.assumedAbsent[name] = struct{}{}
+	}
 	return e.create(name, val)
 }
 
